@@ -6,7 +6,7 @@
 3. Implementation-side monitor (failing-input search): the history of every implementation run must be
    linearizable w.r.t. the bounded FIFO of the configured capacity, the items drained at quiescence included."""
 import os, json
-import vcheck, conc_check
+import vcheck, conc_check, conc_windows
 
 CAPS = [2, 4, 8]
 
@@ -266,6 +266,78 @@ def stall_variants(rng, case, lines, n):
 
 
 # ------------------------------------------------------------------------------------------------------------
+# model-guided window schedules (lib/conc_windows.py): the victim is stalled right before its position CAS or its
+# sequence publish (a plain store), the actor runs exactly through one of its own CAS / publish steps (or to its end),
+# optionally a third thread runs through one of its writes in between, then the victim gets r more steps.
+# (set-up operations of thread 0, threads): E = enqueue of a fresh value, D = dequeue, F = front, P = pop_front,
+# Y = empty(); every template is run at the capacity given (2: the full / empty boundaries are one operation away)
+WINDOW_TEMPLATES = [
+    # (capacity, set-up, threads, third-thread schedules too)
+    (2, "",   [["E"], ["E"], ["D"]], True),          # two producers race for cell 0, consumer sees claimed-but-unpublished cell
+    (2, "E",  [["E"], ["E"], ["D"]], True),          # two producers race for the LAST free cell (loser must re-validate: full)
+    (2, "E",  [["D"], ["D"], ["E"]], True),          # two consumers race for the only item (loser must re-validate: empty)
+    (2, "EE", [["D"], ["D"], ["E"]], True),          # full queue: the producer waits for / sees a claimed-but-unreleased cell
+    (2, "EE", [["E"], ["D"], ["E"]], False),         # enqueue on full racing with the dequeue that makes room
+    (2, "",   [["D"], ["E"], ["D"]], False),         # dequeue on empty racing with the enqueue
+    (2, "E",  [["E", "D"], ["D", "E"]], False),      # ring wrap with two threads, windows in the second operations too
+    (4, "EEE", [["E"], ["E"], ["D", "D"]], False),   # capacity 4 (static buffer variant), last free cell
+    (2, "E",  [["F", "P"], ["E"], ["E"]], False),    # single consumer front / pop_front against two producers (container only)
+    (2, "EE", [["D", "E"], ["E"], ["Y"]], False),
+]
+WINDOW_KINDS = ("cas", "st")
+
+
+def window_ops(tpl_ops, nv):
+    ops = []
+    for o in tpl_ops:
+        if o == "E":
+            ops.append([1, nv()])
+        else:
+            ops.append([{"D": 2, "F": 3, "P": 4, "Y": 5}[o]])
+    return ops
+
+
+def gen_window_cases(ctx, model, rng, quick):
+    """every template x variant (container dynamic / static-4 / intrusive) x item counter; the quick tier keeps a
+    seed-chosen variant per template and a deterministic subsample of its schedules"""
+    wdir = os.path.join(ctx.work, "wprobe")
+    os.makedirs(wdir, exist_ok=True)
+    cases = []
+    info = {"templates": len(WINDOW_TEMPLATES), "enumerated": 0, "model_probes": 0}
+    per_tpl = 70 if quick else None
+    for ti, (cap, setup, tpl, third) in enumerate(WINDOW_TEMPLATES):
+        combos = []
+        for variant in (0, 1, 2):
+            if variant == 1 and cap != 4:
+                continue
+            if variant == 2 and any(o in "FP" for th in tpl for o in th):
+                continue
+            for counter in (0, 1):
+                combos.append((variant, counter))
+        if quick:
+            combos = [combos[(ctx.seed + ti) % len(combos)]]
+        for (variant, counter) in combos:
+            cfg = [cap, variant, counter, 4000]
+            vals = [10]
+            def nv():
+                vals[0] += 1
+                return vals[0]
+            su = window_ops(setup, nv)
+            ths = [window_ops(th, nv) for th in tpl]
+            tag = "w%d_%d%d" % (ti, variant, counter)
+            threads, scheds, inf = conc_windows.windows(model, wdir, cfg, ths, setup=su, kinds=WINDOW_KINDS, max_r=8,
+                                                        third=third and not quick, tag=tag)
+            info["enumerated"] += len(scheds)
+            info["model_probes"] += inf["model_probes"]
+            for name, sched in conc_windows.subsample(rng, scheds, per_tpl):
+                cases.append({"id": "%s_%s" % (tag, name), "cfg": cfg, "threads": threads, "sched": sched, "shape": "window", "window": True})
+    if not quick and len(cases) > 6000:
+        # thorough tier: the full enumeration, up to a budget (a seeded subsample beyond it; 'enumerated' says how many there are)
+        cases = conc_windows.subsample(rng, cases, 6000)
+        info["thorough_budget"] = 6000
+    info["cases"] = len(cases)
+    return cases, info
+
 
 def drain_of(ilog):
     for x in ilog["extra"]:
@@ -388,7 +460,7 @@ def report(ctx, model, impl, case, bad, extra=None):
     obj = {"case": {k: cm[k] for k in ("cfg", "threads", "sched")}, "impl_log": im["lines"] if im else None,
            "observed": b2[1] if b2 else det, "model_log_same_case": mm["lines"] if mm else None,
            "first_divergence_model_vs_impl": compare(mm, im) if (mm and im) else None,
-           "unminimised_case": {k: case[k] for k in ("cfg", "threads", "sched")}}
+           "unminimised_case": {k: case[k] for k in ("cfg", "threads", "sched")}, "unminimised_case_id": case.get("id")}
     if extra:
         obj.update(extra)
     ctx.violation(what, obj)
@@ -445,6 +517,21 @@ def run(ctx):
     mlog2, ilog2 = run_batch(ctx, model, impl, stalls, "stalls")
     mlog.update(mlog2); ilog.update(ilog2)
     cases += stalls
+    # third pass: model-guided window schedules (victim stalled before its CAS / publish, actor through one write)
+    t_w = os.times()
+    wcases, winfo = gen_window_cases(ctx, model, ctx.rng.fork(), not ctx.thorough())
+    mlog3, ilog3 = run_batch(ctx, model, impl, wcases, "windows")
+    mlog.update(mlog3); ilog.update(ilog3)
+    cases += wcases
+    t_w2 = os.times()
+    winfo["cpu_s"] = round((t_w2.user + t_w2.system + t_w2.children_user + t_w2.children_system) - (t_w.user + t_w.system + t_w.children_user + t_w.children_system), 1)
+    wstats = conc_windows.RetryStats()
+    for c in wcases:
+        if ilog.get(c["id"]) is not None:
+            wstats.add(ilog[c["id"]]["lines"], tuple(c["cfg"][:3]))
+    winfo.update(wstats.summary())
+    ctx.log("window schedules: %d cases (%d enumerated), %d with a failed CAS, %d with an operation on a retry path, cpu %.1fs" % (
+        len(wcases), winfo["enumerated"], winfo["cases_with_failed_cas"], winfo["cases_with_retry_path"], winfo["cpu_s"]))
 
     shapes = set(); nontrivial = set(); diverged = 0; steps = 0; first_div = None; nbad = 0; not_run = 0
     hist = {"enq_ok": 0, "enq_full": 0, "deq_ok": 0, "deq_empty": 0, "front_ok": 0, "front_empty": 0, "pop_ok": 0, "pop_empty": 0,
@@ -487,12 +574,15 @@ def run(ctx):
                     hist["cas_failed"] += 1; nt = True
         if nenq >= 3 * cap:
             hist["wrapped_ge3"] += 1; nt = True
-        if c.get("stall"):
+        if c.get("stall") or c.get("window"):
             nt = True
         if nt:
             nontrivial.add(key)
         bad = impl_bad(c, i, m)
         hist["histories_checked"] += 1
+        if c.get("window"):
+            winfo["rejected_by_oracle"] = winfo.get("rejected_by_oracle", 0) + (1 if bad is not None else 0)
+            winfo["diverged_from_model"] = winfo.get("diverged_from_model", 0) + (1 if d is not None else 0)
         if bad is not None:
             nbad += 1
             if bad[0] not in getattr(ctx, "what_count", {}):
@@ -535,13 +625,24 @@ def run(ctx):
                            "case": {k: c[k] for k in ("cfg", "threads", "sched")}, "first_divergence": d}, no_input=True)
     if not res.ok:
         ctx.violation("Coq obligations of C07 do not check: %s" % (res.failed[:2],), {"theorem": [f[2] for f in res.failed], "errors": res.failed[:3]}, no_input=True)
+    # counter wrap-around: the real queue started a few positions before 2^62 / 2^63 / 2^64 against LV.Model.VyukovWrap
+    try:
+        import C07_wrap
+        ctx.coverage["counter_wrap"] = C07_wrap.run_wrap(ctx, build_coq=False)
+    except vcheck.BuildError as e:
+        ctx.coverage["counter_wrap"] = {"build_failure": str(e)[-1500:]}
+        ctx.violation("harness/C07/wrap_main.cpp does not build against the working tree: the counter wrap-around part cannot be checked",
+                      {"kind": "build-failure", "harness": "wrap_main", "error": str(e)[-2000:]}, no_input=True)
+    if winfo.get("rejected_by_oracle") or winfo.get("diverged_from_model"):
+        ctx.log("window schedules: %d rejected by the implementation-side oracle, %d diverged from the model" % (winfo.get("rejected_by_oracle", 0), winfo.get("diverged_from_model", 0)))
     ctx.coverage.update({
         "evaluations": len(cases) - not_run, "distinct_nontrivial": len(nontrivial),
-        "rule": "program x schedule pairs: capacities 2/4/8; container (dynamic, static-4 buffers) and intrusive variants; item counter on/off; shapes: ring wrapped >= 3 times, full boundary, empty boundary, single consumer with front/pop_front, mixed; schedules uniform / bursty / run-then-switch plus a second pass that replays a run up to a successful position CAS and then stalls that thread before its sequence publish; all from one splitmix64 stream. distinct = distinct (cfg, model event log); non-trivial = the run has a failed CAS, a failed (full/empty) operation, >= 3 ring wraps, or a thread stalled between CAS and publish",
+        "rule": "program x schedule pairs: capacities 2/4/8; container (dynamic, static-4 buffers) and intrusive variants; item counter on/off; shapes: ring wrapped >= 3 times, full boundary, empty boundary, single consumer with front/pop_front, mixed; schedules uniform / bursty / run-then-switch plus a second pass that replays a run up to a successful position CAS and then stalls that thread before its sequence publish, plus a third pass of model-guided window schedules (lib/conc_windows.py: templates with a set-up prefix that puts the queue at its full / empty boundary; victim stalled right before its position CAS or its publish, actor run exactly through one of its writes, r more victim steps; see window_schedules); all from one splitmix64 stream. distinct = distinct (cfg, model event log); non-trivial = the run has a failed CAS, a failed (full/empty) operation, >= 3 ring wraps, or a thread stalled between CAS and publish",
         "distinct_event_logs": len(shapes), "impl_steps_compared": steps, "diverged": diverged, "corpus_cases": ncorpus,
         "traces_validated_against_impl": len(cases) - not_run - diverged, "histograms": hist,
+        "window_schedules": winfo,
         "impl_runs_rejected_by_oracle": nbad, "cases_not_run_after_repeated_hangs": not_run,
-        "samples": [{k: c[k] for k in ("id", "cfg", "threads", "sched")} for c in (cases[ncorpus:ncorpus + 2] + stalls[:1])],
+        "samples": [{k: c[k] for k in ("id", "cfg", "threads", "sched")} for c in (cases[ncorpus:ncorpus + 2] + stalls[:1] + wcases[:1])],
         "modelled": "cds::container::VyukovMPMCCycleQueue::{enqueue_with,dequeue_with,front,pop_front,empty,size} (the intrusive queue is the same code at T*)",
         "values_compared": "every atomic access: kind, object, ok flag, value read, value written",
     })
